@@ -6,7 +6,7 @@ sys.path.insert(0, os.path.join(os.path.dirname(os.path.abspath(__file__)), ".."
 import run
 from gen import ExtractError
 name = sys.argv[1]
-fss = [a for a in sys.argv[2:] if a in ("all", "default", "luajit")] or ["all"]
+fss = [a for a in sys.argv[2:] if a in ("all", "default", "luajit", "luau")] or ["all"]
 m = importlib.import_module(name)
 for fs in fss:
     try:
